@@ -243,6 +243,15 @@ pub fn judge(case: &Case, acc: &mut Acc) {
             if got_bytes != want_bytes {
                 viol!(acc, P, &format!("wire-bytes/{}", k.name()), case, "RawAttribute::to_bytes is not type|length|value|zero padding", fmt_bytes(&want_bytes), fmt_bytes(&got_bytes));
             }
+            // the in-place writer, into a buffer that held other bytes before (a reused send buffer): the
+            // same type | length | value | zero padding, nothing beyond
+            {
+                let mut dirty = vec![0xA5u8; want_bytes.len() + 5];
+                let r2 = w.write_into(&mut dirty);
+                if !matches!(r2, Ok(n) if n == want_bytes.len()) || dirty[..want_bytes.len()] != want_bytes[..] || dirty[want_bytes.len()..].iter().any(|b| *b != 0xA5) {
+                    viol!(acc, P, &format!("wire-bytes-in-place/{}", k.name()), case, "write_into a buffer that held other bytes does not give type|length|value|zero padding (or touches bytes beyond)", fmt_bytes(&want_bytes), format!("{r2:?} {}", fmt_bytes(&dirty)));
+                }
+            }
             want_bytes.clear();
             if real::typed_fields(&typed, tid) != pv {
                 viol!(acc, P, &format!("getter/{}", k.name()), case, "getters of a constructed value do not return what was put in", format!("{pv:?}"), format!("{:?}", real::typed_fields(&typed, tid)));
